@@ -13,7 +13,7 @@ ADMIN = ("version", "stats", "quit")
 SEND_FAULTS = ("reset", "pipe", "timeout")
 RECV_FAULTS = ("timeout", "reset", "eof")
 CONNECT_FAULTS = ("refuse", "connect_timeout")
-REPLY_FAULTS = ("errline", "garbage", "truncate", "partial-error")
+REPLY_FAULTS = ("errline", "garbage", "truncate", "partial-error", "foreign-value")
 
 SEG_CHOICES = ([0], [1], [2], [3], [1, 0], [2, 0], [5, 0], [1, 1, 0], [7], [4096], [3, 1, 4], [6, 2, 0])
 RECV_SIZES = (4096, 4096, 4096, 1, 2, 3, 7, 64)
